@@ -454,12 +454,12 @@ def step_add(e, tier="quick", usage=False, acting=None, others=None):
     A = {}
     A["C17.no_exception"] = (ex is None)
     A["C17.ack_first"] = ack_ok(fr, msg)
-    proto_err = T if x.a_shape != "sub0" else Or(z3.Not(has_ph), z3.Not(has_bd))
+    proto_err = T if x.a_shape not in ("sub0", "reopened0") else Or(z3.Not(has_ph), z3.Not(has_bd))
     err_shape = (types == ["ack", "error"] and fr[1]["frame"].get("orig") is msg)
     A["C17.proto_error"] = Implies(proto_err, And(err_shape, store_unchanged(pre, post),
                                                   all(len(step_frames(o)) == 0 for o in w.conns if o is not c)))
     nm = {t: new_rows(pre, post, t) for t in CHANNEL_TABLES}
-    if x.a_shape == "sub0":
+    if x.a_shape in ("sub0", "reopened0"):
         b = w.bundles[0]
         ok = z3.Not(proto_err)
         A["C01.stored"] = Implies(ok, And(
@@ -495,7 +495,7 @@ def step_add(e, tier="quick", usage=False, acting=None, others=None):
         A["C02.delivery"] = T
     generic_frames(A, x, pre, post)
     A["C08.others_untouched"] = frame_other_bundles(
-        w, pre, post, (lambda bb: bb is w.bundles[0]) if x.a_shape == "sub0" else (lambda bb: F))
+        w, pre, post, (lambda bb: bb is w.bundles[0]) if x.a_shape in ("sub0", "reopened0") else (lambda bb: F))
     return finish(x, A, info=dict(exc=type(ex).__name__ if ex else None))
 
 
@@ -810,7 +810,8 @@ def step_bind(e, tier="quick", usage=False):
 @obligation("step.disconnect")
 def step_disconnect(e, tier="quick", usage=False):
     bd = bounds(tier)
-    x = build(e, **usage_cfg(e, usage), acting=["unbound", "fresh", "sub0", "claimed0"], others=["none", "sub0s0", "sub0s1"], **bd)
+    x = build(e, **usage_cfg(e, usage), acting=["unbound", "fresh", "sub0", "claimed0", "reopened0"],
+              others=["none", "sub0s0", "sub0s1"], **bd)
     w, c, pre = x.w, x.c, x.pre
     ex = w.disconnect(c)
     post = w.snapshot()
